@@ -100,3 +100,24 @@ pub fn guarded<T, F: FnOnce() -> T + std::panic::UnwindSafe>(f: F) -> Result<T, 
 
 pub struct NullLogger;
 impl lightning::util::logger::Logger for NullLogger { fn log(&self, _r: lightning::util::logger::Record) {} }
+
+/// Parse the common command line: `<bin> [model] --seed S --tier quick|thorough --out DIR [--replay FILE] [--scale N]`
+pub fn parse_args(default_model: &str) -> Args {
+	let a: Vec<String> = std::env::args().collect();
+	let mut args = Args { model: default_model.to_string(), seed: 1, thorough: false, out: PathBuf::from("run"), replay: None, scale: 1 };
+	let mut i = 1;
+	while i < a.len() {
+		match a[i].as_str() {
+			"--seed" => { args.seed = a[i + 1].parse().unwrap(); i += 2; }
+			"--tier" => { args.thorough = a[i + 1] == "thorough"; i += 2; }
+			"--out" => { args.out = PathBuf::from(&a[i + 1]); i += 2; }
+			"--replay" => { args.replay = Some(PathBuf::from(&a[i + 1])); i += 2; }
+			"--scale" => { args.scale = a[i + 1].parse().unwrap(); i += 2; }
+			x if !x.starts_with("--") => { args.model = x.to_string(); i += 1; }
+			x => { eprintln!("unknown arg {}", x); std::process::exit(2); }
+		}
+	}
+	// panics inside guarded cases are outcomes; keep the default hook quiet
+	std::panic::set_hook(Box::new(|_| {}));
+	args
+}
